@@ -9,9 +9,10 @@ import common, pool, specs, gens, ftdiff, c02, c01, semcheck
 
 
 def dyn_request(case, rec, ex):
-    """product Einsum, shape partitioning on any ranks (static splits) and ONE uniform_occupancy level - the bottom level of
-    its stack - on a contracted rank: the request for the Lean model (Props/C03Static.static_then_dynamic): original
-    Einsum + inputs, the static splits, the loop order after them, the dynamic split"""
+    """product Einsum; shape levels on any ranks (static splits in the header) and, on ONE contracted rank, a stack whose
+    lowest one or more levels are uniform_occupancy (each split inside the loops of the level above): the request for the Lean
+    model (Props/C03Chain.static_then_chain): original Einsum + inputs, static splits, the loop order after them with the
+    dynamically split rank still whole, and per occupancy level the loops that precede its split and the emitted order after it"""
     e = case["eins"][0]
     d = rec["yaml"]
     parts = ((d.get("mapping") or {}).get("partitioning") or {}).get(e["out"]) or {}
@@ -35,37 +36,56 @@ def dyn_request(case, rec, ex):
         if K not in ranks:
             return None
         n = len(stack)
-        shape, occ = stack, None
-        m = re.fullmatch(r"uniform_occupancy\((\w+)\.(\d+)\)", stack[-1])
-        if m:
-            shape, occ = stack[:-1], (m.group(1), int(m.group(2)))
+        occs = []
+        shape = list(stack)
+        while shape:
+            m = re.fullmatch(r"uniform_occupancy\((\w+)\.(\d+)\)", shape[-1])
+            if not m:
+                break
+            occs.insert(0, (m.group(1), int(m.group(2))))
+            shape.pop()
         sizes = c02.part_sizes(case, shape, case["ext"][K])
         if sizes is None or any(x <= 0 for x in sizes):
-            return None                                   # occupancy above another level etc.: outside the modelled class
+            return None                                   # occupancy above a shape level etc.: outside the modelled class
         cur = K
         for j, sz in enumerate(sizes):
             lvl = n - j
             low = (K + "0") if lvl == 1 else "%s%dI" % (K, lvl - 1)
             splits.append({"K": cur, "K1": K + str(lvl), "K0": low, "size": sz})
             cur = low
-        if occ:
+        if occs:
             if dyn is not None or K in case["decl"][e["out"]]:
                 return None
-            dyn = dict(K=cur, K1=K + "1", K0=K + "0", n=occ[1], leader=occ[0])
-    if dyn is None or dyn["K1"] not in lo or dyn["K0"] not in lo:
+            dyn = dict(root=K, top=cur, occs=occs)
+    if dyn is None:
         return None
-    i1 = lo.index(dyn["K1"])
-    pre, rs2 = lo[:i1], lo[i1:]
-    loop1 = pre + [dyn["K"] if r == dyn["K1"] else r for r in rs2 if r != dyn["K0"]]
-    return {"op": "nest_statdyn", "loop": ranks, "exts": [case["ext"][r] for r in ranks], "out_name": e["out"], "out_ranks": list(case["decl"][e["out"]]),
-            "terms": terms, "tree": rec["tree"], "splits": splits, "loop1": loop1, "npre": len(pre), "K": dyn["K"], "K1": dyn["K1"], "K0": dyn["K0"],
-            "n": dyn["n"], "leader": dyn["leader"], "loop2": rs2}
+    K, nocc = dyn["root"], len(dyn["occs"])
+    names = [K + str(l) for l in range(nocc, -1, -1)]          # K<nocc> ... K0
+    if any(x not in lo for x in names):
+        return None
+    # loop order after the static splits: the dynamically split rank whole, at the position of its top level
+    loop1 = [dyn["top"] if r == names[0] else r for r in lo if r not in names[1:]]
+    levels = []
+    cur_loops, cur_rank = list(loop1), dyn["top"]
+    for j, (leader, occ) in enumerate(dyn["occs"]):
+        lvl = nocc - j
+        up = K + str(lvl)
+        low = (K + "0") if lvl == 1 else "%s%dI" % (K, lvl - 1)
+        i1 = cur_loops.index(cur_rank)
+        # emitted loops after this split: the upper level where the whole rank was, the lower rank where its next level is in lo
+        rest_lo = [r for r in lo if r in cur_loops[i1 + 1:] or r in names[j + 1:]]
+        nxt = names[j + 1]
+        rs2 = [up] + [low if r == nxt else r for r in rest_lo if r not in names[j + 2:]]
+        levels.append({"npre": i1, "K": cur_rank, "K1": up, "K0": low, "n": occ, "leader": leader, "loop2": rs2})
+        cur_loops, cur_rank = rs2, low
+    return {"op": "nest_chain", "loop": ranks, "exts": [case["ext"][r] for r in ranks], "out_name": e["out"], "out_ranks": list(case["decl"][e["out"]]),
+            "terms": terms, "tree": rec["tree"], "splits": splits, "loop1": loop1, "levels": levels}
 
 
 def check_model(ctx, recs):
-    """tie of C03.static_then_dynamic to the real compiler: the model nest (outer loops, split of the fibers reached at the
+    """tie of C03.static_then_chain to the real compiler: the model nest (outer loops, split of the fibers reached at the
     leader's boundaries, inner loops) has the real program's loop skeleton and computes what the real program computes on the
-    sampled input; the theorem's hypotheses (StatDynHyps) are decided in Lean for every sample"""
+    sampled input; the theorem's hypotheses (StatChainHyps) are decided in Lean for every sample"""
     reqs, metas = [], []
     for r in recs:
         if not r["ok"] or r["case"] is None or len(r["case"]["eins"]) != 1:
@@ -97,13 +117,13 @@ def check_model(ctx, recs):
         rep = dict(semcheck.base_replay(r, case, ex), real=real, model_run=run_, model_spec=spec_, hyps_ok=a["hyps_ok"],
                    skeleton_expected=a["expected_loops"], skeleton_actual=a.get("actual_loops"))
         if not ok_h:
-            ctx.violation(dict(rep, kind="model-hypotheses", obligation="C03.StatDynHyps decided on the sampled specification and input",
-                               reason="the hypotheses of C03.static_then_dynamic do not hold for this generated sample (generator or model out of step)"), False)
+            ctx.violation(dict(rep, kind="model-hypotheses", obligation="C03.StatChainHyps decided on the sampled specification and input",
+                               reason="the hypotheses of C03.static_then_chain do not hold for this generated sample (generator or model out of step)"), False)
         elif not ok_thm:
-            ctx.violation(dict(rep, kind="model-semantics", obligation="C03.static_then_dynamic", reason="model nest and meaning differ although DynHyps holds"), False)
+            ctx.violation(dict(rep, kind="model-semantics", obligation="C03.static_then_chain", reason="model nest and meaning differ although DynHyps holds"), False)
         else:
             verdict_ok, reason, sig = semcheck.verdict(case, ex)
-            ctx.violation(dict(rep, kind="model-correspondence", obligation="model of the nest with a dynamic split (C03.static_then_dynamic) = real compiler: loop skeleton and result",
+            ctx.violation(dict(rep, kind="model-correspondence", obligation="model of the nest with a dynamic split (C03.static_then_chain) = real compiler: loop skeleton and result",
                                reason="the emitted program no longer matches the model nest (%s)" % ("skeleton" if not skel_ok else "result")), not verdict_ok)
 
 
@@ -126,7 +146,8 @@ def run(ctx):
     recs = pool.collect(ctx, [dict(gen="g3", count=110 * k, modes=["plain"], nexec=n, reference=True), dict(gen="g3z", count=20 * k, modes=["plain"], nexec=n, reference=True)])
     c02.check_records(ctx, recs)
     recs2 = pool.collect(ctx, [dict(gen="g3", count=30 * k, modes=["plain"], nexec=n, opts={"variant": "occ"}),
-                               dict(gen="g3", count=20 * k, modes=["plain"], nexec=n, opts={"variant": "occ_under_shape"})])
+                               dict(gen="g3", count=20 * k, modes=["plain"], nexec=n, opts={"variant": "occ_under_shape"}),
+                               dict(gen="g3", count=20 * k, modes=["plain"], nexec=n, opts={"variant": "occ2"})])
     c02.check_records(ctx, recs2, need_reference=False)
     check_model(ctx, recs + recs2)
 
